@@ -93,8 +93,11 @@ type parked struct {
 }
 
 type Gates struct {
-	mu      sync.Mutex
-	plan    map[GatePoint]bool
+	mu sync.Mutex
+	// stackPlan: site -> substring: the next arrival at the site whose call stack contains the substring parks
+	// (as GatePoint{site, -1}); for sites that many unrelated callers pass (the yield points inside types.Map)
+	stackPlan map[string]string
+	plan      map[GatePoint]bool
 	counts  map[string]int
 	parkedL []*parked
 	Fired   []GatePoint
@@ -114,7 +117,7 @@ func init() {
 // InstallGates activates a plan for the current case; call Uninstall (which
 // also releases anything still parked) before the bubble ends.
 func InstallGates(plan []GatePoint) *Gates {
-	g := &Gates{plan: map[GatePoint]bool{}, counts: map[string]int{}}
+	g := &Gates{plan: map[GatePoint]bool{}, counts: map[string]int{}, stackPlan: map[string]string{}}
 	for _, p := range plan {
 		g.plan[p] = true
 	}
@@ -126,6 +129,14 @@ func (g *Gates) yield(site string) {
 	g.mu.Lock()
 	n := g.counts[site]
 	g.counts[site] = n + 1
+	if want, ok := g.stackPlan[site]; ok && !g.closed {
+		buf := make([]byte, 8192)
+		if strings.Contains(string(buf[:runtime.Stack(buf, false)]), want) {
+			delete(g.stackPlan, site)
+			n = -1
+			g.plan[GatePoint{site, -1}] = true
+		}
+	}
 	if g.closed || !g.plan[GatePoint{site, n}] {
 		g.mu.Unlock()
 		return
